@@ -4,6 +4,9 @@ package c20
 import (
 	"encoding/json"
 	"fmt"
+	"os"
+	"os/exec"
+	"path/filepath"
 	"regexp"
 	"strings"
 	"testing"
@@ -244,6 +247,64 @@ func TestEveryPositionOfFixedSpecs(t *testing.T) {
 		}
 	}
 	rec.Count("fixed_position_variants", n)
+}
+
+// the command-line tool reports the same position on its error stream, with the name of the input file
+func TestCLIDiagnostics(t *testing.T) {
+	rec.Begin(t)
+	rec.Rule(rule)
+	if rec.Shard() != 0 {
+		t.Skip("shard 0 only")
+	}
+	bin := os.Getenv("VERIF_EMERGE_BIN")
+	if _, err := os.Stat(bin); err != nil {
+		t.Skip("emerge binary not built")
+	}
+	texts := []string{
+		"grammar g;\nstart = = ;\n",
+		"\n\n   grammar g;\n\tstart = \"a\" # ;\n",
+		"grammar g;\nstart = \"a\" ;\nx = ( \"b\" ;\n",
+		"grammar g; start = \"a\"",
+		"// lead\ngrammar g\nAB = \nstart = AB;\n",
+		"grammar g;\nstart = \"a\" ;\n/* open",
+		"grammar g;\n@left ; start = ;\n",
+		"grammar g;\nstart = \"abc ;\n",
+	}
+	for i, text := range texts {
+		e := expect(text)
+		dir := t.TempDir()
+		name := fmt.Sprintf("spec%d.ebnf", i)
+		file := filepath.Join(dir, name)
+		if err := os.WriteFile(file, []byte(text), 0o644); err != nil {
+			t.Fatal(err)
+		}
+		cmd := exec.Command(bin, "-out", dir, file)
+		cmd.Dir = dir
+		out, err := cmd.CombinedOutput()
+		code := 0
+		if ee, ok := err.(*exec.ExitError); ok {
+			code = ee.ExitCode()
+		} else if err != nil {
+			t.Fatalf("cannot run emerge: %v", err)
+		}
+		rec.Case("cli:"+text, true, "cli", "error_"+e.kind)
+		msg := string(out)
+		if code == 0 {
+			rec.Fail(t, "text", input{Text: text}, "emerge exits with status 0 for a text with a %s error\ntext:\n%s\noutput:\n%s", e.kind, text, msg)
+		}
+		got := regexp.MustCompile(regexp.QuoteMeta(name) + `:(\d+):(\d+)`).FindAllString(msg, -1)
+		switch e.kind {
+		case "truncated":
+			if len(got) > 0 {
+				rec.Fail(t, "text", input{Text: text}, "the specification merely ends too early, but emerge points at %v\ntext:\n%s\noutput:\n%s", got, text, msg)
+			}
+		default:
+			want := fmt.Sprintf("%s:%d:%d", name, e.line, e.col)
+			if len(got) == 0 || got[0] != want {
+				rec.Fail(t, "text", input{Text: text}, "the %s error is at %s, emerge reports %v\ntext:\n%s\noutput:\n%s", e.kind, want, got, text, msg)
+			}
+		}
+	}
 }
 
 func TestReplay(t *testing.T) {
